@@ -26,7 +26,7 @@ from pvm.gen import c03_models as cm
 from pvm.gen import mdg as gm
 
 PROP = "C04"
-N = {"quick": 14, "thorough": 600}
+N = {"quick": 14, "thorough": 400}
 WORKERS = {"quick": 4, "thorough": 16}
 TIMEOUT = {"quick": 400, "thorough": 3000}
 CASE_TIMEOUT = 300.0
